@@ -43,6 +43,12 @@ CHECKS["C09"] = ("model_checking",
     "Switches happen only at line boundaries of the traced files and at lock acquisitions (thorough adds opcode-level points in MemoryCache); pure string/path helpers are atomic; no Python race detector exists in the image; schedules beyond the preemption bound are not explored.",
     "DESIGN.md §3 C09")
 
+CHECKS["C01"] = ("model_checking",
+    "exhaustive enumeration of edit histories over generated programs, each edition executed on the real library in fresh or long-lived processes, differential oracle = un-decorated rendering of the current edition",
+    "18 program skeletons (root -> dependency chains over memento / explicit-version / plain functions through bare, module.attr, alias, decorator-wrapper and nested-call references; globals of 7 types, class constants, dotted-head bindings, late definitions, hidden dynamic edges) x every edit site x every edit sequence up to length 1 (quick) / 2 (thorough) x delivery cross-process / in-process re-exec+rebind / in-process reload. After every edit every auto-versioned function is called with an explicit argument and with its defaults (hidden-edge programs also through force_local / partial / with_context_args clones); the result must equal the un-memoized run of the current edition or be UndeclaredDependencyError.",
+    "Programs come from a fixed skeleton family, not arbitrary Python; explicit-version functions are edited only together with a version bump (of every explicit function reaching the edit); unsupported variable types and helpers in other packages are outside the statement.",
+    "DESIGN.md §3 C01")
+
 PENDING = {}
 
 
